@@ -169,11 +169,31 @@ def vobs_impl(v):
         'items=' + show_list([enc(v.item(i)) for i in range(-(n + 1), n + 2)]),
         'seq=' + show_list(seq),
         'reported=' + show_list(['%s/%s' % (enc(k), enc(v.getVariableValue(k))) for k in v.keys()]),
-        'serialized=' + show_list(['%s/%s' % (enc(a), enc(b)) for a, b in ser])])
+        'reportedq=' + show_list(['%s/%s' % (enc(k), enc(v.getVariableValue(G.requote(k)))) for k in v.keys()]),
+        'serialized=' + show_list(['%s/%s' % (enc(a), enc(b)) for a, b in ser]),
+        'text=' + enc(v.cssText)])
 
 
 def opt(x):
     return 'None' if x is None else enc(x)
+
+
+def prefs_line(pf):
+    return 'prefs ' + ' '.join(['%d' % bool(pf[k]) for k in G.PREF_BOOLS] + [enc(pf[k]) for k in G.PREF_STRS])
+
+
+class Prefs:
+    """the serializer preferences switched to `pf` for the duration of the block, then back to the defaults"""
+
+    def __init__(self, cu, pf):
+        self.cu, self.pf = cu, pf
+
+    def __enter__(self):
+        for k, v in self.pf.items():
+            setattr(self.cu.ser.prefs, k, v)
+
+    def __exit__(self, *a):
+        self.cu.ser.prefs.useDefaults()
 
 
 # ----------------------------------------------------------------------------------------------------
@@ -204,9 +224,102 @@ class Session:
         try:
             for op in ops:
                 self.one_decl_op(style, op, spec)
+                if self.rng.random() < 0.12:
+                    self.probe_prefs_decl(style, G.gen_prefs(self.rng))
+            self.probe_prefs_decl(style, G.gen_prefs(self.rng))
+            self.probe_prefs_decl(style, G.gen_prefs(self.rng, single=True))
         finally:
             cu.log.raiseExceptions = True
+            cu.ser.prefs.useDefaults()
         return style
+
+    def probe_prefs_decl(self, style, pf):
+        """cssText / getCssText(separator) under non-default serializer preferences; the value texts under these
+        preferences and `property.valid` are tabulated from the implementation (parameters of the model)"""
+        from cssutils.css import Property
+        cu = self.cu
+        props = style.getProperties(all=True)
+        keys = [(p.name, p.propertyValue.cssText, p.priority) for p in props]
+        sep = self.rng.choice(['\n', '', ' ', ';', '\n  '])
+        old = cu.log.raiseExceptions
+        cu.log.raiseExceptions = False
+        try:
+            with Prefs(cu, pf):
+                with time_limit(20):
+                    vts = [p.propertyValue.cssText for p in props]
+                    valids = [bool(p.valid) for p in props] if pf['validOnly'] else None
+                    text = style.cssText
+                    text_sep = style.getCssText(sep)
+                    eff = style.getProperties()
+                    items = [(it.value, it.value.cssText, G.ref_property(it.value, pf)
+                              if isinstance(it.value, Property) else None) for it in style.seq]
+        finally:
+            cu.log.raiseExceptions = old
+        self.emit(prefs_line(pf), 'ok', ('prefs', pf))
+        seen = set()
+        for i, k in enumerate(keys):
+            if k[1] not in seen:
+                seen.add(k[1])
+                self.emit('vt %s %s' % (enc(k[1]), enc(vts[i])), 'ok', 'vt')
+            if valids is not None:
+                self.emit('pvalid %s %s %s %d' % (enc(k[0]), enc(k[1]), enc(k[2]), valids[i]), 'ok', 'pvalid')
+        self.emit('ptext', enc(text), ('cssText under', pf))
+        self.emit('psep %s' % enc(sep), enc(text_sep), ('getCssText(%r) under' % sep, pf))
+        # the items the written text consists of: split by the real tokenizer vs `srcOf` of the model
+        if pf['lineSeparator'] or not pf['keepComments'] or True:
+            words = []
+            for w in G.split_block(self.front.tokenizer, text):
+                words.append('M:%s' % enc(w[1]) if w[0] == 'M' else 'D:%s:%s:%s' % (enc(w[1]), enc(w[2]), enc(w[3])))
+            self.emit('psrc', show_list(words), ('source items of cssText under', pf))
+        self.ctx.count('prefs-probe:decl')
+        self.oracle_text(pf, text, text_sep, sep, items, eff)
+
+    def oracle_text(self, pf, text, text_sep, sep, items, eff):
+        """independent of the model — the statement of T10.8 on the implementation: cssText is the lines of the
+        written items joined by the separator; written = every item (keepAllProperties) or comments + the effective
+        entry of every name; a line = the property text + `;` unless it is the last item and omitLastSemicolon;
+        and the property text is `name:` spacer value [` ` priority]"""
+        from cssutils.css import Property
+        ctx = self.ctx
+        diff = {k: v for k, v in pf.items() if v != G.PREF_DEFAULTS[k]}
+        shown = [x for x in items if not isinstance(x[0], Property) or pf['keepAllProperties']
+                 or any(x[0] is e for e in eff)]
+        for val, t, ref in shown:
+            if ref is not None and ref != t:
+                ctx.violate('the text of a property is name, colon, value and priority as the preferences say',
+                            {'ops': G.show_ops(self.history), 'prefs': diff}, {'cssText': t, 'expected': ref})
+                return
+        # reparse: the written text, assigned to a fresh block, leaves exactly the written entries
+        from cssutils.css import CSSStyleDeclaration
+        written = [(val.name, val.value, val.priority) for val, t, ref in shown if isinstance(val, Property) and t]
+        if all(G.py_normalize(n) == n for n, _, _ in written) and not pf['validOnly']:
+            old = self.cu.log.raiseExceptions
+            self.cu.log.raiseExceptions = False
+            try:
+                with time_limit(20):
+                    back = CSSStyleDeclaration(cssText=text)
+                    again = [(p.name, p.value, p.priority) for p in back.getProperties(all=True)]
+            finally:
+                self.cu.log.raiseExceptions = old
+            if again != written:
+                ctx.violate('cssText reparses to the written entries (name, value, priority), in order',
+                            {'ops': G.show_ops(self.history), 'prefs': diff, 'cssText': text},
+                            {'written': written, 'reparsed': again})
+                return
+        for got, s_ in ((text, pf['lineSeparator']), (text_sep, sep)):
+            lines = []
+            for i, (val, t, ref) in enumerate(shown):
+                if isinstance(val, Property):
+                    if t:
+                        lines.append(t + ('' if (pf['omitLastSemicolon'] and i == len(shown) - 1) else ';'))
+                elif pf['keepComments']:
+                    lines.append(t)
+            if got != s_.join(lines):
+                ctx.violate('cssText lists exactly the entries (all, or the effective one per name) in block order, '
+                            'one line each, joined by the separator',
+                            {'ops': G.show_ops(self.history), 'prefs': diff, 'separator': s_},
+                            {'cssText': got, 'expected': s_.join(lines)})
+                return
 
     def call(self, f):
         try:
@@ -254,12 +367,13 @@ class Session:
             self.emit('seti %s %s %s' % (enc(name), opt(value), opt(prio)), r, op)
         elif k == 'attrset':
             _, dom, cssname, value = op
-            fr.tok(cssname)
+            if cssname:
+                fr.tok(cssname)
             if value:
                 fr.val(value)
             r = self.call(lambda: setattr(style, dom, value))
             # an attribute assignment returns nothing; compare the exception class only
-            self.emit('set %s %s - 1 1' % (enc(cssname), opt(value)), None if r.startswith('ok') else r, op)
+            self.emit('aset %s %s' % (enc(dom), opt(value)), None if r.startswith('ok') else r, op)
         elif k == 'rm':
             _, name, norm = op
             r = self.call(lambda: style.removeProperty(name, normalize=norm))
@@ -271,7 +385,7 @@ class Session:
             _, dom, cssname = op
             r = self.call(lambda: delattr(style, dom))
             # `del style.x` returns nothing; compare the exception class only
-            self.emit('rm %s 1' % enc(cssname), None if r.startswith('ok') else r, op)
+            self.emit('adel %s' % enc(dom), None if r.startswith('ok') else r, op)
         elif k == 'text':
             items = op[1]
             words = []
@@ -300,6 +414,10 @@ class Session:
         # point queries
         for q in G.queries_for(op, self.rng):
             self.query(style, q)
+        # a listed (normalised) name looked up by a literal spelling of it (`requote`)
+        for kname in style.keys()[:2]:
+            self.emit('rq %s' % enc(kname), enc(G.requote(kname)), ('requote', kname))
+            self.emit('gvq %s' % enc(kname), enc(style.getPropertyValue(G.requote(kname))), ('listed name', kname))
 
     def query(self, style, q):
         k = q[0]
@@ -317,7 +435,11 @@ class Session:
         elif k == 'has':
             self.emit('has %s' % enc(q[1]), '1' if q[1] in style else '0', q)
         elif k == 'attrget':
-            self.emit('gv %s 1' % enc(q[2]), enc(getattr(style, q[1])), q)
+            try:
+                got = enc(getattr(style, q[1]))
+            except AttributeError:
+                got = 'err crash:AttributeError'
+            self.emit('aget %s' % enc(q[1]), got, q)
 
     # -- variables ops ------------------------------------------------------------------------------
     def run_vars(self, ops):
@@ -361,6 +483,10 @@ class Session:
                     for it in op[1]:
                         if it[0] == 'V':
                             pv = fr.val(it[2])
+                            if pv is None:
+                                # a value the stand-alone PropertyValue(text) refuses but the token path of the
+                                # block parser accepts (an identifier ending in an escaped blank before `;`)
+                                pv = G.value_via_block(cu, it[2])
                             idents = [b for a, b in fr.tok(it[1]) if a == 'IDENT']
                             words.append('I:%s' % enc(idents[0]))
                             words.append('V:%s:%s' % (enc(pv[0]), enc(pv[1])))
@@ -375,9 +501,86 @@ class Session:
                     self.emit('vget %s' % enc(nm), enc(v[nm]), ('v[]', nm))
                     self.emit('vhas %s' % enc(nm), '1' if nm in v else '0', ('vhas', nm))
                 self.oracle_vars(v, op)
+                if self.rng.random() < 0.15:
+                    self.probe_prefs_vars(v, G.gen_prefs(self.rng))
+            self.probe_prefs_vars(v, G.gen_prefs(self.rng))
+            self.probe_prefs_vars(v, G.gen_prefs(self.rng, single=True))
         finally:
             cu.log.raiseExceptions = True
+            cu.ser.prefs.useDefaults()
         return v
+
+    def probe_prefs_vars(self, v, pf):
+        cu = self.cu
+        vals = [it.value[1] for it in v.seq if it.type == 'var']
+        keys = [x.cssText for x in vals]
+        old = cu.log.raiseExceptions
+        cu.log.raiseExceptions = False
+        try:
+            with Prefs(cu, pf):
+                with time_limit(20):
+                    vts = [x.cssText for x in vals]
+                    text = v.cssText
+        finally:
+            cu.log.raiseExceptions = old
+        self.emit(prefs_line(pf), 'ok', ('prefs', pf))
+        seen = set()
+        for k, t in zip(keys, vts):
+            if k not in seen:
+                seen.add(k)
+                self.emit('vt %s %s' % (enc(k), enc(t)), 'ok', 'vt')
+        self.emit('vptext', enc(text), ('variables cssText under', pf))
+        self.ctx.count('prefs-probe:vars')
+        # reparse with the real parser: the items of the written text vs `vWritten` of the model (names and kinds;
+        # the value texts as well when the value serializer runs with its default preferences), and oracle:
+        # the reparsed block reports the same variables
+        from cssutils.css import CSSVariablesDeclaration
+        stable = all(G.py_normalize(k) == k for k in v.keys())
+        escblank = any(G.ends_escaped_blank(t) for t in vts)
+        if text and not escblank:
+            cu.log.raiseExceptions = False
+            try:
+                with time_limit(20):
+                    back = CSSVariablesDeclaration(cssText=text)
+                    bitems = [('var', it.value[0], it.value[1].cssText) if it.type == 'var'
+                              else ('other', getattr(it.value, 'cssText', it.value), None) for it in back.seq]
+                    breport = [(k, back.getVariableValue(G.requote(k))) for k in back.keys()]
+            finally:
+                cu.log.raiseExceptions = old
+            valdefaults = all(pf[k] == G.PREF_DEFAULTS[k] for k in ('keepComments', 'spacer', 'listItemSpacer'))
+            # known finding C10-vars-trailing-comment: the grammar of `cssText =` refuses a comment after the last
+            # declaration, so a block whose last written item is a comment does not reparse
+            trailing = pf['keepComments'] and len(v.seq) > 0 and v.seq[-1].type != 'var' and any(
+                it.type == 'var' for it in v.seq)
+            if valdefaults and not trailing:
+                self.emit('vpsrc', show_list(['var/%s/%s' % (enc(a), enc(b)) if k == 'var' else 'other/%s' % enc(a)
+                                              for k, a, b in bitems]), ('items of the reparsed variables text', pf))
+            want = [(k, v.getVariableValue(G.requote(k))) for k in v.keys()]
+            if (stable or not pf['normalizedVarNames']) and valdefaults and breport != want:
+                self.ctx.violate('variables block: cssText reparses to the variables the API reports',
+                                 {'ops': self.history, 'prefs': {k: x for k, x in pf.items() if x != G.PREF_DEFAULTS[k]},
+                                  'cssText': text}, {'api': want, 'reparsed': breport},
+                                 known='C10-vars-trailing-comment' if trailing else None)
+        # oracle (the statement of T10.8 on the implementation): up to layout white space the text is exactly the
+        # entries, `name:value;` each (last `;` as omitLastSemicolon says), comments in between
+        content, n = [], len(v.seq)
+        vi = 0
+        for i, it in enumerate(v.seq):
+            if it.type == 'var':
+                nm = G.py_normalize(it.value[0]) if pf['normalizedVarNames'] else it.value[0]
+                content.append(nm + ':' + vts[vi] + (';' if (i < n - 1 or not pf['omitLastSemicolon']) else ''))
+                vi += 1
+            elif pf['keepComments']:
+                content.append(getattr(it.value, 'cssText', it.value))
+        if v.seq and v.seq[-1].type == 'var' and G.ends_escaped_blank(vts[-1]) \
+                and not (text.endswith(vts[-1]) or text.endswith(vts[-1] + ';')):
+            self.ctx.violate('variables block: an escaped blank that ends the last value is part of the value and stays',
+                             {'ops': self.history, 'prefs': {k: x for k, x in pf.items() if x != G.PREF_DEFAULTS[k]}},
+                             {'cssText': text, 'last value': vts[-1]})
+        if G.strip_ws(text) != G.strip_ws(''.join(content)):
+            self.ctx.violate('variables block: up to layout white space cssText is exactly its entries',
+                             {'ops': self.history, 'prefs': {k: x for k, x in pf.items() if x != G.PREF_DEFAULTS[k]}},
+                             {'cssText': text, 'entries': content})
 
     def oracle_vars(self, v, op):
         """the serialisation lists exactly the variables the API reports (checked by reparsing the text)"""
@@ -394,6 +597,11 @@ class Session:
         if any(G.requote(k) not in v for k in v.keys()):
             ctx.violate('variables block: every listed key is a member', {'ops': self.history}, {'keys': v.keys()})
         text = v.cssText
+        if v.seq and v.seq[-1].type == 'var':
+            lastv = v.seq[-1].value[1].cssText
+            if G.ends_escaped_blank(lastv) and not text.endswith(lastv):
+                ctx.violate('variables block: an escaped blank that ends the last value is part of the value and stays',
+                            {'ops': self.history}, {'cssText': text, 'last value': lastv})
         listed = G.list_variables(text)
         want = [(k, G.strip_comments(val)) for k, val in reported]
         if listed != want:
@@ -410,8 +618,12 @@ class C10(Check):
                'cssutils/profiles.py')
     trusted_base = (
         'hand-written model lean/CssVerif/Model/Decl.lean of CSSStyleDeclaration / Property (name, priority) / '
-        'CSSVariablesDeclaration / the declaration serializer / helper.normalize / the DOM-name converters, tied to '
-        'the code by the lock-step correspondence of this run (observation after every operation)',
+        'CSSVariablesDeclaration / helper.normalize / the DOM-name converters, and Model/DeclText.lean of do_Property / '
+        'do_css_CSSStyleDeclaration / do_css_CSSVariablesDeclaration with Out.append / Out.value under every serializer '
+        'preference they read, tied to the code by the lock-step correspondence of this run (observation after every '
+        'operation) and by preference probes (cssText, getCssText(sep), source items, reparse under random preferences)',
+        'the value text under non-default preferences and property.valid are PARAMETERS of the rendering model '
+        '(REnv.vtext, REnv.valid), tabulated from the implementation in the probes',
         'the tokenizer and the value grammar are PARAMETERS of the model (Env.tokenize, Env.parseValue, Env.isIdent): '
         'theorems hold for every instance; in the correspondence they are tabulated from the real Tokenizer / '
         'PropertyValue / ProdParser',
@@ -431,7 +643,10 @@ class C10(Check):
             'white space, comments, escapes, and invalid ones; ops: setProperty (normalize/replace flags), '
             'removeProperty, []=, del [], camel-case attribute set/get/del, cssText replacement from rendered items, '
             'error-mode switches (raise/log), read-only switches; variables: setVariable, removeVariable, []=, del, '
-            'cssText. non-trivial = a sequence whose final block holds at least two entries with the same normalised '
+            'cssText (values incl. ones ending in an escaped blank). serializer preferences: after 12-15% of the '
+            'operations and twice per history all 14 preferences at random (bool flipped with p=0.4, validOnly 0.15; '
+            'strings from 2-5 choices each) or exactly one preference off its default; getCssText separators '
+            'newline, empty, blank, semicolon, newline+indent. non-trivial = a sequence whose final block holds at least two entries with the same normalised '
             'name, or whose ops include an update of an existing name, a removal of a present name or a rejected op')
 
     def translate(self, ctx):
@@ -454,7 +669,7 @@ class C10(Check):
     def run(self, ctx):
         cu = _impl()
         names = self.names(ctx)
-        for part in (self.check_names_live, ):
+        for part in (self.check_names_live, self.check_pref_defaults):
             ctx.phase(part, ctx, names)
         for part in (self.run_corpus, self.corr_dom, self.oracle_attr, self.corr_decl, self.corr_vars):
             ctx.phase(part, ctx, cu, names)
@@ -466,6 +681,26 @@ class C10(Check):
             ctx.disagree('translator: Gen.C10.propertyNames vs CSS2Properties._properties',
                          'profiles.py', live[:5], names[:5])
         ctx.notes['property_names'] = len(names)
+
+    def check_pref_defaults(self, ctx, names):
+        """`SPrefs.default` of the model against a fresh `Preferences()`"""
+        from cssutils.serialize import Preferences
+        if not ctx.model_ok:
+            return
+        live = Preferences()
+        want = prefs_line({k: getattr(live, k) for k in G.PREF_BOOLS + G.PREF_STRS})[len('prefs '):]
+        got = ctx.driver(['pdef'])[0]
+        if got != want:
+            ctx.disagree('default serializer preferences (SPrefs.default vs Preferences.useDefaults)', 'pdef', want, got)
+        live.useMinified()
+        want = prefs_line({k: getattr(live, k) for k in G.PREF_BOOLS + G.PREF_STRS})[len('prefs '):]
+        got = ctx.driver(['pmin'])[0]
+        if got != want:
+            ctx.disagree('minifying serializer preferences (minifiedPrefs vs Preferences.useMinified)', 'pmin', want, got)
+        live.useDefaults()
+        for k in G.PREF_BOOLS + G.PREF_STRS:
+            if getattr(live, k) != G.PREF_DEFAULTS[k]:
+                ctx.disagree('default serializer preferences (generator table)', k, getattr(live, k), G.PREF_DEFAULTS[k])
 
     # -- DOM names ------------------------------------------------------------------------------------
     def corr_dom(self, ctx, cu, names):
@@ -654,6 +889,16 @@ class C10(Check):
                 v.setVariable(name, value)
             back = CSSVariablesDeclaration(cssText=v.cssText)
             return back.keys() != v.keys()
+        if finding['id'] == 'C10-vars-trailing-comment':
+            from cssutils.css import CSSVariablesDeclaration
+            cu.log.raiseExceptions = False
+            try:
+                v = CSSVariablesDeclaration(cssText=w['cssText'])
+                v.removeVariable(w['removeVariable'])
+                back = CSSVariablesDeclaration(cssText=v.cssText)
+                return v.keys() == w['keys'] and back.keys() != v.keys()
+            finally:
+                cu.log.raiseExceptions = True
         if finding['id'] == 'C10-escaped-backslash-name':
             from cssutils.css import CSSStyleDeclaration
             s = CSSStyleDeclaration()
